@@ -16,7 +16,6 @@ def showOutcome (f : α → String) : Outcome α → String
   | .err => "err"
   | .panic => "panic"
 
-def env : Env := Gen.env
 
 def parseCalls : List String → Option (List Reg.Call)
   | [] => some []
@@ -45,7 +44,7 @@ def showRes : Reg.Res → String
   | .svc (some i) => s!" s{i}"
   | .unit => " u"
 
-def runLine (toks : List String) : String :=
+def runLine (env : Env) (toks : List String) : String :=
   match toks with
   | "enc" :: pre :: rest =>
     match parseHex pre, pVal rest with
@@ -121,15 +120,17 @@ def runLine (toks : List String) : String :=
     | _, _ => "bad-case"
   | _ => "bad-case"
 
-partial def loop (hin hout : IO.FS.Stream) : IO Unit := do
+partial def loop (env : Env) (hin hout : IO.FS.Stream) : IO Unit := do
   let line ← hin.getLine
   if line.isEmpty then return ()
   let toks := (line.trimAscii.toString.splitOn " ").filter (· ≠ "")
-  hout.putStrLn (runLine toks)
-  loop hin hout
+  hout.putStrLn (runLine env toks)
+  loop env hin hout
 
-def main : IO Unit := do
+/-- `driver` evaluates the cases at the environment regenerated from the current sources; `driver --pinned` at the
+    committed pinned environment (used when the regenerated one contains unrecognised statements) -/
+def main (args : List String) : IO Unit := do
   let hin ← IO.getStdin
   let hout ← IO.getStdout
-  loop hin hout
+  loop (if args.contains "--pinned" then Pinned.env else Gen.env) hin hout
   hout.flush
